@@ -239,6 +239,38 @@ theorem C05_all_interleavings_count (ops : List Op) (hnr : ∀ op ∈ ops, op.is
       rw [this, h1]
       cases hs : op.isStepOn j <;> simp [hs] <;> omega
 
+/-- **The history of one model is its own operations** (all interleavings, `run_model` included): what instance `j` is after
+    any interleaving of `step` / `run_model` / re-arm / halt operations on any number of coexisting instances is what it
+    would be had only the operations on `j` been performed, in the same order — the operations on other models, however
+    many and wherever interleaved, are invisible to it (counter, `running`, stop rule and all). -/
+theorem C05_instance_history_is_its_own_ops (ops : List Op) (w : List Inst) (j : Nat) :
+    (run w ops)[j]? = (run w (ops.filter (fun op => op.target == j)))[j]? := by
+  have key : ∀ (ops : List Op) (w w' : List Inst), w[j]? = w'[j]? →
+      (run w ops)[j]? = (run w' (ops.filter (fun op => op.target == j)))[j]? := by
+    intro ops
+    induction ops with
+    | nil => intro w w' h; simpa [run] using h
+    | cons op ops ih =>
+      intro w w' h
+      by_cases ht : op.target = j
+      · have hf : (op :: ops).filter (fun op => op.target == j) = op :: ops.filter (fun op => op.target == j) := by
+          simp [ht]
+        rw [hf]
+        simp only [run, List.foldl_cons]
+        apply ih
+        subst ht
+        exact apply_local w w' op h
+      · have hf : (op :: ops).filter (fun op => op.target == j) = ops.filter (fun op => op.target == j) := by
+          simp [ht]
+        rw [hf]
+        simp only [run, List.foldl_cons]
+        apply ih
+        rw [apply_frame w op j ht]; exact h
+  exact key ops w w rfl
+
+example : (run [Inst.new [⟨true, false, false⟩] 2, Inst.new [] 9] [.step 0 [], .step 1 [], .run 0 5, .step 1 [3], .halt 1, .step 0 []])[0]?.map
+    (fun i => (i.steps, i.running)) = some (3, false) := by decide
+
 /-! ## multiple inheritance: the MRO is the C3 linearisation -/
 
 /-- Every table built by any sequence of (successful) class definitions — single or multiple inheritance,
